@@ -1042,7 +1042,7 @@ class AirTouch4(pyairtouch.api.AirTouch):
             # group_count seems to be incorrect for newer console versions so it
             # can't be relied on.
             if ac.groups is not None:
-                ac_zones = [self._zones[zone_id] for zone_id in ac.groups]
+                ac_zones = [self._zones[zone_id] for zone_id in sorted(ac.groups)]
 
             elif len(ac_abilities) == 1:
                 # As per the interface specifications, if there's only one AC
